@@ -136,7 +136,10 @@ def main(chk: core.Check) -> int:
     if not g["ok"]:
         chk.obligation_broken("translator", "regenerate geometry models", g["error"])
     else:
-        chk.prove(modules=["C09", "C09b"])
+        g4 = gen.gen_geompy()
+        if not g4["ok"]:
+            chk.obligation_broken("translator", "translate the table getters / loaders / accessor wiring of geometry/mdc.py, emc.py into Gen/GeomPy.lean", g4["error"])
+        chk.prove(modules=["C09", "C09b", "GeomTie"])
         try:
             diffs = c08.correspond(chk, g["info"], thorough)
             chk.coverage["traces_validated_against_impl"] = chk.evals
